@@ -34,6 +34,11 @@ FIELD_PROPS = {
         "callers": ["C06", "C11"],
         "cache": ["C06", "C11"],
     },
+    "hyb": {
+        "ret": ["C01", "C17", "C12"],
+        "mem": ["C12", "C01"],
+        "disk": ["C12", "C15"],
+    },
     "mem": {
         "ret": ["C02", "C17", "C13", "C18", "C14", "C16"],
         "leaves": ["C13", "C05", "C14", "C18"],
@@ -140,23 +145,29 @@ PROPS = {
     "C17": {
         "domain": "mem",
         "proof_module": "FoyerProofs.C17",
+        "extra_modules": ["FoyerProofs.C01"],
         "theorems": ["Foyer.C17.mem_own_key_or_miss", "Foyer.C17.mem_colliding_keys_independent", "Foyer.C02.reads_latest",
-                     "Foyer.C02.reads_observe_lookup"],
+                     "Foyer.C02.reads_observe_lookup", "Foyer.Hyb.disk_lookup_own_key_or_miss",
+                     "Foyer.Hyb.recovery_picks_latest"],
         "monitor_props": ["C17", "C02"],
         "campaigns": {
             "quick": [
                 {"name": "mem-colliding", "args": ["mode=oracle", "cases=800", "maxops=40", "collide=1"]},
                 {"name": "memc-colliding", "domain": "memc", "args": ["cases=200", "threads=3", "ops=6", "collide=1"]},
+                {"name": "hyb-colliding", "domain": "hyb", "args": ["cases=250", "maxops=25", "collide=1", "reopen=1"]},
             ],
             "thorough": [
                 {"name": "mem-colliding", "args": ["mode=oracle", "cases=20000", "maxops=80", "collide=1"]},
                 {"name": "memc-colliding", "domain": "memc", "args": ["cases=5000", "threads=4", "ops=7", "collide=1"]},
+                {"name": "hyb-colliding", "domain": "hyb", "args": ["cases=6000", "maxops=40", "collide=1", "reopen=1"]},
             ],
         },
-        "nontrivial": r"ret=h:",
-        "rule": "memory-only part: user-supplied hashers with full 64-bit collisions (constant hash) and same-shard collisions "
-                "(mod / div), op sequences over the colliding key set, sequential (model-validated) and concurrent; non-trivial = "
-                "at least one hit; the disk tier part of C17 is covered by the hybrid campaigns once claimed (see level_note)",
+        "nontrivial": r"ret=(h:|v:)",
+        "rule": "memory part: user-supplied hashers with full 64-bit collisions (constant hash) and same-shard collisions "
+                "(mod / div), op sequences over the colliding key set, sequential (model-validated) and concurrent; hybrid part: "
+                "the real HybridCache with constant / mod-2 hashers (all keys or half of them share one disk index slot), "
+                "histories with hold / gate windows and frequent close+reopen, results compared with the hybrid model and "
+                "checked for foreign values; non-trivial = at least one hit",
         "trusted_base": TB_COMMON,
         "assumptions": MEM_ASSUME,
     },
@@ -361,10 +372,11 @@ CLAIMS.update({
             "technique": "Lean 4 proof (refinement to a per-key register + generic atomic-sections-linearizable theorem) + "
                          "sequential trace validation + exact linearizability check of recorded concurrent histories"},
     "C17": {"text": "Lean 4 theorems for an arbitrary (also constant) hasher: a memory lookup returns an entry of the requested key "
-                    "carrying its latest not-superseded insert, or a miss; operations on another key never change a key's register. "
-                    "Correspondence with user-supplied colliding hashers (full 64-bit and same-shard collisions), sequential and "
-                    "concurrent. The disk-tier half (index by hash, key check) is claimed through C01's machinery when present",
-            "note": MEM_NOTE + "; PARTIAL: only the in-memory tier is covered by this check so far",
+                    "carrying its latest not-superseded insert, or a miss; operations on another key never change a key's register; "
+                    "the hybrid model's disk tier (indexed by hash alone) answers a lookup with the requested key's own value or a "
+                    "miss, also after recovery. Correspondence with user-supplied colliding hashers (full 64-bit and same-shard "
+                    "collisions): memory cache sequential and concurrent, real HybridCache with write-queue windows and restarts",
+            "note": MEM_NOTE + "; the in-flight (get_or_fetch) table under collisions is exercised by the hybrid campaign only, not proved",
             "technique": MEM_TECH},
     "C18": {"text": "Lean 4 theorems: held handles denote unchanged records; under LRU a looked-up record is pinned, a pinned record "
                     "is never a victim and stays pinned until an operation addresses it; in every reachable state every pinned "
@@ -421,5 +433,102 @@ CLAIMS.update({
             "note": MEM_NOTE + "; PARTIAL: memory cache with a re-entrant listener only; destructor re-entrancy, hybrid-cache locks and "
                     "multi-threaded lock-order detection are not covered yet",
             "technique": "Lean 4 proof (re-entrant step semantics preserves the invariant for all callbacks) + watchdog'd re-entrant correspondence"},
+})
+HYB_ASSUME = [
+    "one model step = one API call followed by quiescence of the flusher / reclaimer tasks (current-thread runtime, "
+    "deterministic sim io engine); flusher hold windows and gated device writes are explicit model steps; concurrent "
+    "callers and the multi-threaded runtime are not modelled",
+    "the disk tier is abstract in this model: per-entry addresses, blobs and blocks are C07's model, block choice for "
+    "reclaim is C09's; here disk-capacity eviction is an environment step (`lose`) that may drop any indexed entry "
+    "together with everything written before it",
+    "admission filter = admit-all, compression none, one memory shard; value bytes carry (key, version) so stale and "
+    "foreign values are observable",
+]
+HYB_RULE = ("the real HybridCache (builder API, block engine, FsDevice files, deterministic sim io engine) driven by random "
+            "histories of insert (each Location; sizes small..beyond the per-entry limit) / storage-writer insert / remove / "
+            "clear / get / get_or_fetch / evict-all / contains / wait / hold+unhold flusher / gate+release device writes / "
+            "close+reopen over 2-5 keys, both write policies, flush_on_close on/off, tombstone log on/off, FIFO and LRU "
+            "memory, identity / mod-2 / constant hashers, 1-2 flushers, a quarter of the cases on a 4-8 block device "
+            "(block reclaim happens; `lossy`); every line reports the result, the memory and disk key sets, the bytes "
+            "written to block partitions and the listener events; the Lean driver replays the history on the model and "
+            "evaluates the property monitors on the implementation's own trace; ")
+PROPS.update({
+    "C01": {
+        "domain": "hyb",
+        "proof_module": "FoyerProofs.C01",
+        "theorems": ["Foyer.Hyb.recovery_picks_latest", "Foyer.Hyb.recovery_honours_tombstones",
+                     "Foyer.Hyb.disk_lookup_own_key_or_miss", "Foyer.Hyb.memory_hit_returns_memory",
+                     "Foyer.Hyb.insAll_max"],
+        "monitor_props": ["C01"],
+        "campaigns": {
+            "quick": [{"name": "hyb-random", "args": ["cases=250", "maxops=25"]},
+                      {"name": "hyb-big", "args": ["cases=80", "maxops=25", "big=1"]}],
+            "thorough": [{"name": "hyb-random", "args": ["cases=6000", "maxops=40"]},
+                         {"name": "hyb-big", "args": ["cases=2000", "maxops=40", "big=1"]}],
+        },
+        "nontrivial": r"ret=v:\d+:\d+:(disk|memory)",
+        "rule": HYB_RULE + "non-trivial = at least one lookup that hit; distinct = distinct (cfg, op sequence)",
+        "trusted_base": TB_COMMON,
+        "assumptions": HYB_ASSUME,
+    },
+    "C12": {
+        "domain": "hyb",
+        "proof_module": "FoyerProofs.C12",
+        "theorems": ["Foyer.Hyb.inmem_never_submitted", "Foyer.Hyb.step_noInMem", "Foyer.Hyb.woi_eviction_writes_nothing",
+                     "Foyer.Hyb.woi_memOp_subs", "Foyer.Hyb.woe_no_eviction_no_write", "Foyer.Hyb.young_not_rewritten",
+                     "Foyer.Hyb.origin_only_after_misses"],
+        "monitor_props": ["C12"],
+        "campaigns": {
+            "quick": [{"name": "hyb-random", "args": ["cases=250", "maxops=25"]}],
+            "thorough": [{"name": "hyb-random", "args": ["cases=6000", "maxops=40"]}],
+        },
+        "nontrivial": r" w=[1-9]",
+        "rule": HYB_RULE + "non-trivial = at least one operation that wrote to a block partition; distinct = distinct (cfg, op sequence)",
+        "trusted_base": TB_COMMON,
+        "assumptions": HYB_ASSUME,
+    },
+    "C15": {
+        "domain": "hyb",
+        "proof_module": "FoyerProofs.C15",
+        "theorems": ["Foyer.Hyb.close_persists_flushed", "Foyer.Hyb.close_drains_queue",
+                     "Foyer.Hyb.close_without_flush_submits_nothing", "Foyer.Hyb.reopen_index_is_recovery",
+                     "Foyer.Hyb.recovery_picks_latest"],
+        "monitor_props": ["C15"],
+        "campaigns": {
+            "quick": [{"name": "hyb-reopen", "args": ["cases=250", "maxops=20", "reopen=1"]}],
+            "thorough": [{"name": "hyb-reopen", "args": ["cases=6000", "maxops=35", "reopen=1"]}],
+        },
+        "nontrivial": r"op=reopen",
+        "rule": HYB_RULE + "this campaign reopens three times as often; non-trivial = at least one close+reopen; distinct = distinct (cfg, op sequence)",
+        "trusted_base": TB_COMMON,
+        "assumptions": HYB_ASSUME,
+    },
+})
+HYB_NOTE = ("trusted: Lean kernel; axioms propext/Classical.choice/Quot.sound; harness + sim io engine + driver; the model is "
+            "hand-written and tied to /repo by trace validation only; ")
+CLAIMS.update({
+    "C01": {"text": "Lean 4 theorems about the hybrid model's disk tier: recovery keeps per hash the copy with the highest "
+                    "sequence unless a logged tombstone is at least as new, a disk lookup answers with the requested key's own "
+                    "value or misses, memory shadows the lower tiers — for all device contents and states. Tied to /repo by "
+                    "replaying random hybrid histories (hold / gate / reclaim / reopen windows) on the model and by the "
+                    "stale/foreign/removed-value monitors evaluated on the real HybridCache's trace",
+            "note": HYB_NOTE + "PARTIAL: the end-to-end refinement theorem (every lookup returns the register value) is not "
+                    "proved yet; concurrency of callers is not modelled; D10 / D11 / tombstone-log-off are known findings",
+            "technique": "Lean 4 proof (sequence-guarded index / recovery lemmas) + trace-validating correspondence with property monitors"},
+    "C12": {"text": "Lean 4 theorems about the hybrid model: in every history nothing advised in-memory-only is ever submitted "
+                    "to the disk tier (close included); under write-on-insertion evictions submit nothing; under "
+                    "write-on-eviction an operation that evicts nothing submits nothing; entries just loaded from disk are "
+                    "not rewritten; the origin is asked only after memory and the disk tier missed. Tied to /repo by comparing "
+                    "the model with the real HybridCache's results, key sets and per-operation device write log",
+            "note": HYB_NOTE + "admission filters other than admit-all and throttled / failed disk reads are not exercised yet",
+            "technique": "Lean 4 proof (invariant over all histories of the hybrid model) + trace-validating correspondence on the device write log"},
+    "C15": {"text": "Lean 4 theorems about the hybrid model: with flush-on-close under write-on-eviction everything the closing "
+                    "flush takes out of memory (not in-memory-only, not just loaded, not oversize) is on the device when close "
+                    "returns, whatever the flusher state; close drains the queue; without flush-on-close close submits nothing; "
+                    "the reopened index is the recovery of the device (newest copy per hash). Tied to /repo by close+reopen "
+                    "heavy histories on the real HybridCache compared with the model",
+            "note": HYB_NOTE + "PARTIAL: that the closing flush takes *every* resident entry is policy-specific and only "
+                    "checked by correspondence; idempotence of close / writes after close are not exercised yet",
+            "technique": "Lean 4 proof (pending-entry invariant through close) + trace-validating correspondence across reopen"},
 })
 NOT_CLAIMED = {}
